@@ -516,6 +516,7 @@ fn check(args: &[String]) -> Result<i32, String> {
         }
         reported = Some(("worker_process_died".into(), path));
     }
+    let mut unreproduced: Option<String> = None;
     if reported.is_none() {
         for (run, class) in violations.iter().take(12) {
             let path = format!("{vd}/replays/{id}-{seed}-{run}.json");
@@ -536,11 +537,15 @@ fn check(args: &[String]) -> Result<i32, String> {
                         break;
                     }
                 }
-                return Err(format!(
+                // no verdict from this one (real nondeterminism in the code under test - a thread, a race - or a harness
+                // defect): try the other violations of the batch first; a harness error only if none of them reproduces
+                unreproduced.get_or_insert(format!(
                     "violation at run {run} ({class}) did not reproduce, neither from its seed nor from its worker's run prefix, in a fresh process: {}{}",
                     String::from_utf8_lossy(&o.stdout),
                     String::from_utf8_lossy(&o.stderr)
                 ));
+                let _ = std::fs::remove_file(&path);
+                continue;
             }
             let o2 = Command::new(&exe).args(["replay", &path]).output().map_err(|e| e.to_string())?;
             let so = String::from_utf8_lossy(&o2.stdout).to_string();
@@ -560,7 +565,9 @@ fn check(args: &[String]) -> Result<i32, String> {
                         break;
                     }
                 }
-                return Err(format!("replay of {path} did not reproduce class {class}: exit {:?}\n{so}", o2.status.code()));
+                unreproduced.get_or_insert(format!("replay of {path} did not reproduce class {class}: exit {:?}\n{so}", o2.status.code()));
+                let _ = std::fs::remove_file(&path);
+                continue;
             }
             let witness = std::fs::read_to_string(&path).ok().and_then(|s| json::parse(&s).ok()).and_then(|j| j.str_of("witness").ok()).unwrap_or_default();
             if let Some(k) = known.iter().find(|k| k.class == *class && k.witness == witness) {
@@ -570,6 +577,12 @@ fn check(args: &[String]) -> Result<i32, String> {
             }
             reported = Some((class.clone(), path));
             break;
+        }
+    }
+
+    if reported.is_none() {
+        if let Some(m) = unreproduced {
+            return Err(m);
         }
     }
 
